@@ -1,0 +1,157 @@
+package language
+
+import "strings"
+
+// ValidateCondition applies to a parsed condition the checks of the evaluator that do not
+// depend on the item: a request is refused for them whatever the table holds, so they can be
+// made when no item is evaluated at all (Query or Scan of an empty table or partition)
+func ValidateCondition(n *ConditionalExpression) Object {
+	if n == nil || n.Expression == nil {
+		return nil
+	}
+
+	return validateCondition(n.Expression)
+}
+
+// validateCondition checks an expression in the position of a condition
+func validateCondition(exp Expression) Object {
+	switch node := exp.(type) {
+	case *Identifier:
+		// an attribute name alone is not a condition (a document path is one if it leads to a BOOL,
+		// which only the item can tell)
+		return newError(syntaxErrorTemplate, node.String())
+	case *IndexExpression:
+		return validatePath(node)
+	case *PrefixExpression:
+		return validateCondition(node.Right)
+	case *InfixExpression:
+		return validateInfix(node)
+	case *BetweenExpression:
+		return validateOperands(node.Left, node.Range[0], node.Range[1])
+	case *InExpression:
+		return validateOperands(append([]Expression{node.Left}, node.Range...)...)
+	case *CallExpression:
+		if errObj := validateCall(node); isError(errObj) {
+			return errObj
+		}
+
+		if identifier, ok := node.Function.(*Identifier); ok && identifier.Value == "size" {
+			return newError("a condition must evaluate to a BOOL, %q evaluates to a number", node.String())
+		}
+	}
+
+	return nil
+}
+
+func validateInfix(node *InfixExpression) Object {
+	if errObj := checkSyntaxInfixParts(node); isError(errObj) {
+		return errObj
+	}
+
+	if isComparator(node.Operator) {
+		return validateOperands(node.Left, node.Right)
+	}
+
+	if _, operatorIsKeyword := keywords[node.Operator]; !operatorIsKeyword {
+		return nil
+	}
+
+	if errObj := validateCondition(node.Left); isError(errObj) {
+		return errObj
+	}
+
+	return validateCondition(node.Right)
+}
+
+// validateOperands checks expressions in the position of an operand: attribute names,
+// document paths, placeholders and function calls
+func validateOperands(exps ...Expression) Object {
+	for _, exp := range exps {
+		switch node := exp.(type) {
+		case *Identifier:
+			if errObj := validateName(node); isError(errObj) {
+				return errObj
+			}
+		case *IndexExpression:
+			if errObj := validatePath(node); isError(errObj) {
+				return errObj
+			}
+		case *CallExpression:
+			if errObj := validateCall(node); isError(errObj) {
+				return errObj
+			}
+		default:
+			if exp == nil || isConditionExpression(exp) {
+				return newError("identifier expected: got %q", expressionString(exp))
+			}
+		}
+	}
+
+	return nil
+}
+
+func validateName(node *Identifier) Object {
+	attributeName := strings.ToUpper(node.Token.Literal)
+	if IsReservedWord(attributeName) {
+		return newError("reserved word %s found in expression", attributeName)
+	}
+
+	return nil
+}
+
+// validatePath checks the first element of a document path, as evalIndexObj does
+func validatePath(node *IndexExpression) Object {
+	var exp Expression = node
+
+	for {
+		index, ok := exp.(*IndexExpression)
+		if !ok {
+			break
+		}
+
+		exp = index.Left
+	}
+
+	identifier, ok := exp.(*Identifier)
+	if !ok {
+		return newError("identifier expected: got %q", expressionString(exp))
+	}
+
+	return validateName(identifier)
+}
+
+func validateCall(node *CallExpression) Object {
+	fn := evalFunctionCallIdentifer(node, nil)
+	if isError(fn) {
+		return fn
+	}
+
+	funcObj, ok := fn.(*Function)
+	if !ok {
+		return newError("invalid function call; expression: " + node.String())
+	}
+
+	if funcObj.ForUpdate {
+		return newError("the function is not allowed in an condition expression; function: " + funcObj.Name)
+	}
+
+	for _, arg := range node.Arguments {
+		if arg == nil || isConditionExpression(arg) {
+			return newError("invalid function argument; expression: " + node.String())
+		}
+	}
+
+	if len(node.Arguments) != funcObj.Arity {
+		return newError("incorrect number of operands for operator or function; function: %s, number of operands: %d", funcObj.Name, len(node.Arguments))
+	}
+
+	return validateOperands(node.Arguments...)
+}
+
+func expressionString(exp Expression) string {
+	if exp == nil {
+		return ""
+	}
+
+	return exp.String()
+}
